@@ -716,6 +716,7 @@ def run(ctx):
     cases += [gen.qe_case(rng) for _ in range(ctx.n(120, 1200))]
     cases += [gen.ctrl_case(rng) for _ in range(ctx.n(500, 6000))]
     cases += gen.cg_exact_cases(rng, ctx.n(24, 120))
+    cases += gen.cg_at_solution_cases(rng, ctx.n(12, 60))
     cases += gen.cg_error_cases(rng, ctx.n(24, 120))
     cases += gen.cg_reuse_cases(rng, ctx.n(40, 240))
     cases += [gen.cg_case(rng, nmax=8) for _ in range(ctx.n(150, 900))]
